@@ -73,8 +73,17 @@ def flat_run(fc):
         except Exception as e:
             return {"raise": type(e).__name__, "round": i}, fails + [
                 {"clause": "set_flat-total", "expected": "returns", "observed": type(e).__name__, "round": i}]
-        skels.append(_skel(fl.extract(el, fc["schema"])))
-        fails += flat_check(el, fc["schema"], i)
+        try:
+            fails += flat_check(el, fc["schema"], i)
+            skels.append(_skel(fl.extract(el, fc["schema"])))
+        except Exception as e:
+            if type(e).__name__ == "CaseTimeout":
+                raise
+            # a tree whose members are not what their keys say cannot even be walked by the schema
+            skels.append({"raises": type(e).__name__})
+            fails.append({"clause": "flat:tree-walkable-by-schema", "expected": "every member is an element of its field's class",
+                          "observed": type(e).__name__, "round": i})
+            break
     return {"skeletons": skels}, fails
 
 
@@ -276,6 +285,11 @@ def check(ex, info):
         k0 = schema.get("supplied") or 0
         if [f.name for f in root.field_schema] != [f["name"] for f in schema["subs"]]:
             fail("compound-prepared", [f["name"] for f in schema["subs"]], [f.name for f in root.field_schema], supplied=k0)
+        # no call on a Compound ever replaces a member (set() = explode assigns INTO the members)
+        bi = info.get("before_items") if info.get("target") is root else None
+        if bi is not None and not skipped and [id(v) for v in bi.values()] != [id(v) for v in dict.values(root)]:
+            fail("compound-members-kept", "the same member objects before and after the call",
+                 "members replaced by %s" % (op or {}).get("op"))
     for k, v in adopted:
         if dict.get(root, k) is not v:
             fail("element-of-field-class-adopted", "the Element argument is the stored member", "another object is stored")
